@@ -299,7 +299,7 @@ func main() {
 	// routes: method x target x configuration x key header
 	type r struct {
 		cfg, sec, base, m, kh int
-		target          string
+		target                string
 	}
 	var rs []r
 	for cfg := 0; cfg < 4; cfg++ {
